@@ -265,6 +265,9 @@ def main():
         # ---- known findings -----------------------------------------------------------------------------
         kf = load_json(os.path.join(HERE, 'known_findings.json'), {'known': [], 'fixed': []})
         real_violations = []
+        for k in kf.get('known', []):
+            if k.get('property') == pid and k.get('static'):
+                known_lines.append('KNOWN-FINDING: property=%s %s' % (pid, k.get('what', '')))
         for v in violations:
             match = None
             for k in kf.get('known', []):
